@@ -917,6 +917,11 @@ again:
 		return 0
 	}
 	if rr.err != nil {
+		if strings.Contains(rr.err.Error(), "address already in use") {
+			// a port the harness had found free was taken by a neighbouring cell before the router bound it
+			fmt.Println("INCONCLUSIVE port clash in the harness:", rr.err)
+			return 0
+		}
 		fmt.Println("VIOL good-config-rejected a valid configuration with all listener kinds did not start:", rr.err)
 		return 0
 	}
